@@ -18,7 +18,7 @@ ASSUMPTIONS = [
     'cursor; at most len+1 tokens) plus a wall-clock watchdog of %d s per parse, re-run once before reporting',
     'the interpreter recursion limit is the default (1000) while parsing',
 ]
-WATCHDOG_S = 20
+WATCHDOG_S = 10
 ASSUMPTIONS[1] = ASSUMPTIONS[1] % WATCHDOG_S
 
 
@@ -87,7 +87,7 @@ def judge(src, tol):
     """-> (outcome class, violation or None)"""
     kind, info, r = run_parse(src, tol)
     if kind == 'hang':
-        kind, info, r = run_parse(src, tol, WATCHDOG_S * 3)     # confirm before reporting
+        kind, info, r = run_parse(src, tol, WATCHDOG_S * 2)     # confirm before reporting
         if kind == 'hang':
             return 'hang', ('hang', 'terminates', info)
     if kind == 'ok':
@@ -135,7 +135,9 @@ def corpus_shards(tier):
 def shards(tier):
     out = [dict(s, kind='sigma') for s in strings.shards(tier)]
     out += corpus_shards(tier)
-    out.append({'kind': 'nest', 'pairs': tier != 'quick'})
+    for a in range(8):
+        for b in range(8):
+            out.append({'kind': 'nest', 'a': a, 'b': b, 'step': 5 if tier == 'quick' else 1})
     return out
 
 
@@ -172,11 +174,12 @@ def run_shard(shard):
             check_string(acc, s, 'sample-' + k)
             acc.extra['neighbours'] += 1
     elif kind == 'nest':
-        for label, pieces in strings.nests(40, shard['pairs']):
-            full = ''.join(pieces)
-            check_string(acc, full, 'nest-closed ' + label)
-            for cut in range(1, len(pieces)):
-                check_string(acc, ''.join(pieces[:cut]), 'nest-prefix ' + label)
+        for label, pieces in strings.nests(40, shard['a'], shard['b']):
+            cuts = [len(pieces), 40, 41] + list(range(1, len(pieces), shard['step']))
+            for cut in sorted(set(cuts)):
+                check_string(acc, ''.join(pieces[:cut]), 'nest ' + label)
+                if acc.nviol and any(v['sub'] == 'hang' for v in acc.viol):
+                    break       # one confirmed hang per nest family is enough (each costs the watchdog time)
             acc.extra['nests'] += 1
     return acc
 
@@ -205,7 +208,7 @@ def coverage(tier, total):
                 'kinds (%s), closed and cut at every token boundary; each x tolerance 0/1.  distinct = distinct '
                 '(input, tolerance, outcome class)' % (
                     ', '.join('%s n<=%d (%d symbols)' % (a, n, len(strings.sigma(a))) for a, n in strings.PLAN[tier]),
-                    len(strings.HOSTILE), 'homogeneous only' if tier == 'quick' else 'all ordered pairs alternating'),
+                    len(strings.HOSTILE), 'all ordered pairs alternating; cut every 5th boundary' if tier == 'quick' else 'all ordered pairs alternating; cut at every boundary'),
         'sigma_strings': int(total.extra['sigma_strings']),
         'neighbours': int(total.extra['neighbours']),
         'corpus_docs': int(total.extra['corpus_docs']),
